@@ -20,12 +20,12 @@ from ..refsem import RefState, applicable, successor, non_interfering, Inconsist
 from ..runner import CaseResult, digest
 
 ID = "C15"
-RULE = ("domains ma1 / ma2 / ma3 x agents 2 (quick) / 3 (thorough); every valid sequential plan of length <= 4 (quick) / "
+RULE = ("domains ma1 / ma2 / ma3 / ma2b / ma4 (agent not the first parameter) x agents 2 (quick) / 3 (thorough); every valid sequential plan of length <= 4 (quick) / "
         "5 (thorough, 2 agents) / 4 (3 agents) from the initial state (BFS over applicable calls), each converted from a "
         "plan file in 2 layouts x concurrency constraint on/off; one case = one (domain, agents, first two steps) family; plus every prefix of the shipped sokoban (28 steps, 2 agents) "
         "and depots (100 steps, 10 agents) sequential plans. "
         "non-trivial = a plan in which some joint action has >= 2 members")
-ASSUMPTIONS = ["every action names exactly one agent, as its first argument",
+ASSUMPTIONS = ["the executing agent of a call is its first argument that is an agent (ma4: an item comes first; give / pass name two agents)",
                "interference is defined semantically (every member order executable and confluent in the step's pre-state)"]
 CASE_TIMEOUT = 600
 LEN = {"quick": {2: 4}, "thorough": {2: 5, 3: 4}}
@@ -136,14 +136,14 @@ def check_plan(r, w, plan, final, tags):
                        joint, tags=t)
                 return False
             for ag in w.agents:
-                if [m for m in flat if m[1] == ag] != [s for s in plan if s[1] == ag]:
+                if [m for m in flat if madoms.agent_of(m[1:], w.agents) == ag] != [s for s in plan if madoms.agent_of(s[1:], w.agents) == ag]:
                     r.fail("agent-order", f"{label}: agent {ag}'s actions are reordered in {joint}", plan, joint, tags=t)
                     return False
             st = w.RP.state()
             multi = False
             for k, j in enumerate(joint):
                 r.count("transitions")
-                if len(j) != len(w.agents) or any(m[0] != "nop" and m[1] != w.agents[i] for i, m in enumerate(j)):
+                if len(j) != len(w.agents) or any(m[0] != "nop" and madoms.agent_of(m[1:], w.agents) != w.agents[i] for i, m in enumerate(j)):
                     r.fail("slots", f"{label}: joint action #{k} {j} does not have one slot per agent in agent order "
                            f"{w.agents}", w.agents, j, tags=t)
                     return False
